@@ -266,7 +266,16 @@ func H_C01_Send() {
 	now := time.Unix(0, int64(nondetInt()))
 	s.b.StopTimeAt(now)
 	q := EventType(nondetString())
-	payload := &vErr{"payload"}
+	// what is sent is whatever the caller hands over: some value, nothing at all, or an event of some other life
+	var payload any = &vErr{"payload"}
+	switch symLen(0, 3) {
+	case 1:
+		payload = nil
+	case 2:
+		payload = &Event{Type: EventType(nondetString()), Payload: &vErr{"inner"}}
+	case 3:
+		payload = (*Event)(nil)
+	}
 	_, err := s.b.Send(context.Background(), q, payload)
 	known := false
 	if s.hasG {
@@ -283,7 +292,8 @@ func H_C01_Send() {
 		verifAssert(e != nil, "C01.send.event")
 		if e != nil {
 			verifAssert(e.Type == q, "C01.send.event-type")
-			verifAssert(verifSame(e.Payload, any(payload)), "C01.send.event-payload")
+			verifAssert(verifSame(e.Payload, payload), "C01.send.event-payload")
+			verifAssert(!verifSame(e, payload), "C01.send.event-is-new")
 			verifAssert(e.CreatedAt.Equal(now), "C01.send.event-created-at")
 			verifAssert(e.Formatted != nil && len(e.Formatted) == 0, "C01.send.event-empty-format-table")
 		}
